@@ -7,6 +7,7 @@ of ELFFile(BytesIO).  model = extracted Model/C14Notes.v over the same image (it
 section / program header itself), spec = expected_notes.  Same for StabSection.iter_stabs."""
 import io, struct
 from tools.lib.framework import impl_call
+from tools.lib.sx import canon as sx_canon
 
 CLAIMED = True
 CONFIG = {'assumptions': ['names are compared as latin-1 bytes (bytes2str); build ids as the ASCII hex text',
@@ -487,11 +488,9 @@ def evaluate(ctx, cases):
         if kind == 'notes':
             c, notes, (pre_pad, eof) = a
             got = impl_call(_impl_notes, w['img'])
-            if isinstance(got, tuple):
-                impl, fcfg = got
-                assert fcfg == dcfg(c), (fcfg, c)
-            else:
-                impl = got
+            # (the header names ELFFile reports are expected to be the generator's; if an enum edit in /repo makes
+            #  them differ, impl is compared with the spec for the generator's configuration and fails there)
+            impl = got[0] if isinstance(got, tuple) else got
             def ok(x):          # ['ok', result] -> result
                 return x[1] if isinstance(x, list) and x and x[0] == 'ok' else x
             model = [ok(r[0]), ok(r[1])]
@@ -506,7 +505,12 @@ def evaluate(ctx, cases):
                     ctx.bump('descsz_mod4', len(desc[1]) % 4)
                 if desc[0] == 'props':
                     ctx.bump('props_per_list', len(desc[1]) if len(desc[1]) < 4 else '4+')
-            key = FINAL_NOTE_KEY if _final_header_only(notes) else 'notes'
+            key = 'notes'
+            if _final_header_only(notes) and isinstance(impl, list) and isinstance(spec[0], list):
+                # the signature of the (repaired) loop-guard defect: everything right except that the last note is missing
+                dropped = [[v[0][:-1], v[1]] for v in spec]
+                if sx_canon(impl) == sx_canon(dropped):
+                    key = FINAL_NOTE_KEY
             ctx.record(kind, a, impl=impl, spec=spec, model=model, in_domain=w['wf'], nontrivial=_nontrivial(notes), key=key)
         elif kind == 'malformed':
             got = impl_call(_impl_notes, w['img'])
